@@ -506,6 +506,19 @@ func nameDecodingAs(c *Ctx, rule, user string, resIdx int) {
 				continue
 			}
 			suffix, isC := constString(arg(ci, 1))
+			if !isC {
+				// []byte("\x00") or []byte{0}
+				switch y := strip(arg(ci, 1)).(type) {
+				case *ssa.Convert:
+					suffix, isC = constString(y.X)
+				default:
+					if elems, ok := sliceLitElems(arg(ci, 1)); ok && len(elems) == 1 {
+						if k, okk := constInt(elems[0]); okk && k == 0 {
+							suffix, isC = "\x00", true
+						}
+					}
+				}
+			}
 			good := (n == "strings.TrimSuffix" || n == "bytes.TrimSuffix") && isC && suffix == "\x00"
 			c.Check(good, rule, key+" "+n, ci.Pos(), "removes exactly one trailing NUL", "the decoded string is cut with "+n+": more than the one trailing terminator can be removed (or the string is cut at an inner NUL), so different wire strings become the same name")
 		}
